@@ -19,6 +19,9 @@ LEVEL_TEXT = ("Seeded search over interleavings: cooperative interleavings of 2-
 LEVEL_NOTE = ('Trusted: the uncached twin as reference (rule expansion itself is C01, not judged here); pre-emption at source-line granularity inside rrule.py only; CPython 3.12 sys.monitoring; SimLock models _thread.lock.')
 TECHNIQUE = ('deterministic simulation: seeded thread/iterator schedules over simulated locks, checked against a sequential list model')
 
+REAL = ['dateutil.rrule from /repo/src', 'real OS threads (parked; one runs at a time)', 'CPython 3.12 generators']
+STUB = ['the cache mutex (SimLock via six.moves._thread)', 'thread scheduling (seeded baton passing at sys.monitoring LINE events of rrule.py and at lock operations)', 'iterator scheduling in the coop class (generated operation order)']
+
 CLASSES = {
     "coop":    dict(quick=20000, thorough=500000, timeout=30),
     "threads": dict(quick=12000, thorough=300000, timeout=40),
